@@ -12,6 +12,14 @@ package destroy
 // The interpreter's StateDB calls are recorded by a wrapper; the recorded operation list, the initial stores and
 // everything observed afterwards go to Coq (Corr/CorrDestroy.v), which runs the model on them.
 // The oracle below is written from the property text and uses only the SDK's own answers (LockedCoins, stores).
+//
+// Round 3 (foreign_test.go): within one StateDB life, touches and reads of an address are interleaved with writes that
+// OTHER MODULES make on the StateDB's current context - the ERC-20 and staking precompiles called by any address or
+// by planted programs, and bank sends / burns / delegations made by the harness itself - in both orders (touched then
+// paid, funded then drained), scripted and random; addresses and storage keys carry boundary bytes; the WHOLE raw x/evm
+// store is scanned before the transaction, before the commit and after it, and the oracle's expectation for the commit
+// (deleted, completely, iff touched and (self-destructed or empty in the stores when the commit starts); untouched
+// otherwise) is computed from those scans, bank and auth only.
 
 import (
 	"fmt"
@@ -97,6 +105,8 @@ func boundaryLabel(a common.Address) string {
 		return "addr:..00"
 	case a[0] == 0xff:
 		return "addr:ff.."
+	case a[0] == 0x00:
+		return "addr:00.."
 	}
 	return "addr:plain"
 }
@@ -586,7 +596,10 @@ func (r *run) finish() {
 	require.NoError(w.t, err)
 	r.rawPost = rawScan(w.c, w.ctx)
 	for _, a := range rawOwners(r.rawPost) {
-		require.True(w.t, w.inUni[a], "the commit created keys of %s, an address no operation named", a.Hex())
+		if !w.inUni[a] {
+			// cannot happen with the code as it is: the commit only deletes. Reported, not fatal.
+			w.side.Hit("C15/destroy/commit_changed_kept_address", fmt.Sprintf("the commit created x/evm keys of %s, an address no operation named", a.Hex()), &caseOut{Index: -1, Uni: w.describe()})
+		}
 	}
 	for _, a := range w.addrs {
 		r.post = append(r.post, observe(w.t, w.c, w.ctx, w.denoms, w.ct, a, r.rawPost))
